@@ -162,6 +162,18 @@ def build_project(cells, dep5=False, dirs=("d", "e")):
                            ("u/in1/g.txt", [outer, inner["in1"]]), ("u/zz.txt", [outer]), ("u/zz/last.txt", [outer])):
             files[rel] = "body\n"
             expected["u:" + rel] = (rel,) + A.attribute(None, chain)
+    if not dep5:
+        # a nearer REUSE.toml whose table states an EMPTY copyright string (and nothing else / a licence): it provides no copyright,
+        # so the outer closest table still supplies it
+        cop, lic = ["2006 shared-v"], ["LicenseRef-shared-v"]
+        tables[0].append(("v/**", "closest", cop, lic))
+        outer = {"prec": "closest", "cop": cop, "lic": lic, "source": "REUSE.toml", "stype": "reuse-toml"}
+        files["v/e1/REUSE.toml"] = "version = 1\n\n[[annotations]]\npath = '**'\nprecedence = 'closest'\nSPDX-FileCopyrightText = ''\n"
+        files["v/e2/REUSE.toml"] = "version = 1\n\n[[annotations]]\npath = '**'\nprecedence = 'closest'\nSPDX-FileCopyrightText = ['', '  ']\nSPDX-License-Identifier = 'LicenseRef-inner-v'\n"
+        inner2 = {"prec": "closest", "cop": [], "lic": ["LicenseRef-inner-v"], "source": "v/e2/REUSE.toml", "stype": "reuse-toml"}
+        for rel, chain in (("v/a.txt", [outer]), ("v/e1/f.txt", [outer]), ("v/e2/f.txt", [outer, inner2])):
+            files[rel] = "body\n"
+            expected["v:" + rel] = (rel,) + A.attribute(None, chain)
     if dep5:
         out = ["Format: https://www.debian.org/doc/packaging-manuals/copyright-format/1.0/", "Upstream-Name: x", ""]
         for path, cop, lic in dep5_paras:
